@@ -15,6 +15,8 @@ pub fn scalars(seed: u64, fillers: usize) -> Vec<(String, U256)> {
     v.push(("half-n".into(), secp::half_n())); v.push(("half-n+1".into(), secp::half_n().adc(&U256::ONE).0));
     for k in 1..256usize { let mut l = [0u64; 4]; l[k / 64] = 1 << (k % 64); v.push(("pow2".into(), U256(l))); v.push(("pow2-1".into(), sub(&U256(l), 1))); }
     v.push(("pattern".into(), U256::from_be(&[1u8; 32])));
+    // 32 bytes that happen to be text (ASCII hex digits, decimal digits, base64 alphabet): still just a big-endian integer
+    for t in ["0123456789abcdef0123456789abcdef", "000000000000000000000000000000ff", "ABCDEF0123456789ABCDEF0123456789", "12345678901234567890123456789012", "0x00000000000000000000000000000a", "QUJDREVGR0hJSktMTU5PUFFSU1RVVg==", "                                "] { v.push(("ascii-text".into(), U256::from_be(t.as_bytes().try_into().unwrap()))); }
     v.push(("ganache".into(), U256::from_hex("4f3edf983ac636a65a842ce7c78d9aa706d3b113bce9c46f30d7d21715b23b1d")));
     for i in 0..fillers { let b: [u8; 32] = filler_bytes(seed, 0xC04 + i as u64, 32).try_into().unwrap(); let x = U256::from_be(&b); if !x.is_zero() && x < n { v.push(("filler".into(), x)); } }
     v.retain(|(_, x)| !x.is_zero() && *x < n);
@@ -48,7 +50,13 @@ pub fn run(ctx: &Ctx) {
         if len < 32 { variants.push(base[32 - len..].to_vec()); } else { let mut p = vec![0u8; len - 32]; p.extend_from_slice(&base); variants.push(p); let mut q = base.to_vec(); q.extend(vec![0u8; len - 32]); variants.push(q); }
         for b in variants { let v = Nat::from_be_bytes(&b); odd.push((format!("len={}", if len < 32 { "short" } else { "long" }), b, Some(v))); }
     }
-    ctx.sweep("out-of-range-and-lengths", "32-byte values 0, n, n+1, n+2^128, 2^256-1 (must be rejected); every length 0..=64 except 32 with 3-4 value patterns (rejected, or the key of the same big-endian integer)", odd.len() as u64, |i| {
+    // textual encodings of a key presented as bytes: every one has a length other than 32, so it is rejected or the key
+    // of the same big-endian integer (which is >= n for all of them) - never the key the text spells
+    let kh = "4f3edf983ac636a65a842ce7c78d9aa706d3b113bce9c46f30d7d21715b23b1d";
+    for (name, t) in [("hex-lower", kh.to_string()), ("hex-upper", kh.to_uppercase()), ("0x-hex", format!("0x{kh}")), ("0X-hex", format!("0X{}", kh.to_uppercase())), ("hex-newline", format!("{kh}\n")), ("hex-of-1", format!("{:064x}", 1)), ("0x-hex-of-1", format!("0x{:064x}", 1)), ("hex-of-n-1", n.sbb(&U256::ONE).0.to_hex64()),
+        ("decimal", U256::from_hex(kh).to_nat().to_dec()), ("decimal-1", "1".to_string()), ("base64", "Tz7fmDrGNqZahCznx42apwbTsRO86cRvMNfSFxWyOx0=".to_string()), ("hex-16-bytes-of-key", kh[..32].to_string()), ("hex-odd", kh[..63].to_string()), ("hex-65", format!("{kh}0")), ("hex-spaces", format!(" {kh} "))] {
+        let b = t.into_bytes(); if b.len() == 32 { continue; } let v = Nat::from_be_bytes(&b); odd.push((format!("text-encoding:{name}"), b, Some(v))); }
+    ctx.sweep("out-of-range-and-lengths", "32-byte values 0, n, n+1, n+2^128, 2^256-1 (must be rejected); every length 0..=64 except 32 with 3-4 value patterns, and 14 textual encodings of a key (hex, 0x-hex, decimal, base64, ...) presented as bytes (rejected, or the key of the same big-endian integer)", odd.len() as u64, |i| {
         let (class, bytes, unc) = &odd[i as usize];
         let replay = json!({"sweep": "out-of-range-and-lengths", "index": i, "entry": "PrivateKey::new", "secret": explore::hex(bytes)});
         ctx.sample("out-of-range-and-lengths", || replay.clone());
